@@ -112,7 +112,9 @@ def encode(binary_message, accessor, start_index,
             radix = len(used_indices)
 
             if radix == 4:  # current vertex contains information.
-                remainder = binary_message[location] * 2 + binary_message[location + 1]
+                remainder = binary_message[location] * 2
+                if location + 1 < len(binary_message):
+                    remainder += binary_message[location + 1]
 
                 if shuffles is not None:  # shuffle remainder based on the inputted shuffles.
                     remainder = argsort(shuffles[vertex_index, used_indices])[remainder]
@@ -284,7 +286,8 @@ def decode(dna_sequence, bit_length, accessor, start_index,
 
             if radix == 4:
                 binary_message[message_location] = remainder // 2
-                binary_message[message_location + 1] = remainder % 2
+                if message_location + 1 < bit_length:
+                    binary_message[message_location + 1] = remainder % 2
                 message_location += 2
             elif radix == 2:
                 binary_message[message_location] = remainder % 2
